@@ -45,19 +45,25 @@ def l1_unit(args):
                 order = [leader]
                 for _ in range(3):
                     order.append(RP.nxt(order[-1]))
+                if c.enough():
+                    return c
                 for t3 in itertools.permutations(rest, 3):
                     cards = (d0,) + t3
-                    o = PlayingPhase(contract)
-                    ok = True
-                    for i, x in enumerate(cards):
-                        if o.active_player._name_ != order[i]:
-                            ok = False
-                        o.play_card(CARDS[x])
+                    c.inc('tricks')
+                    try:
+                        o = PlayingPhase(contract)
+                        ok = True
+                        for i, x in enumerate(cards):
+                            if o.active_player._name_ != order[i]:
+                                ok = False
+                            o.play_card(CARDS[x])
+                    except Exception as e:  # noqa
+                        c.violate(f'C04:trick:raise:{type(e).__name__}', f'trick {cards} (contract {bid} by {decl}) raised {e!r}', {'kind': 'trick', 'bid': bid, 'declarer': decl, 'cards': list(cards)})
+                        continue
                     w = RP.trick_winner(cards, trump)
                     ws = order[w]
                     got = (o.leader._name_, o.active_player._name_, o.trick_num, o.taken_tricks[Pair.NS], o.taken_tricks[Pair.EW], ok)
                     want = (ws, ws, 2, 1 if ws in 'NS' else 0, 1 if ws in 'EW' else 0, True)
-                    c.inc('tricks')
                     if got != want:
                         c.violate(f'C04:trick:{_shape(cards, trump, w)}:{PX._diff(got, want)}',
                                   f'trick {cards} (led by {leader}, contract {bid} by {decl}): (leader, on turn, trick number, NS, EW, clockwise turns) = {got}, '
@@ -142,6 +148,8 @@ def l2_unit(args):
     seen = {key0}
     frontier = deque([(o0, key0, [])])
     while frontier:
+        if c.enough():
+            break
         o, key, hist = frontier.popleft()
         tn, leader, ns, ew = key
         if tn > 13:
@@ -150,22 +158,26 @@ def l2_unit(args):
             c.inc('final_states')
             continue
         for name, w, cs in menu:
-            o2 = clone(o)
-            o2.playing_history = _clone_history(o.playing_history)
-            seat = leader
-            turn_ok = True
-            for x in cs:
-                if o2.active_player._name_ != seat:
-                    turn_ok = False
-                o2.play_card(CARDS[x])
-                seat = RP.nxt(seat)
+            rp = {'kind': 'graph', 'bid': bid, 'declarer': decl, 'tricks': hist + [cs]}
+            try:
+                o2 = _copy.deepcopy(o)            # what search code does with a board in progress; branches must not feel each other
+                seat = leader
+                turn_ok = True
+                for x in cs:
+                    if o2.active_player._name_ != seat:
+                        turn_ok = False
+                    o2.play_card(CARDS[x])
+                    seat = RP.nxt(seat)
+            except Exception as e:  # noqa
+                c.inc('transitions')
+                c.violate(f'C04:graph:raise:{type(e).__name__}', f'{bid} by {decl}, trick {tn} led by {leader}, shape {name} {cs} on a deep copy of the board after {len(hist)} tricks: {e!r}', rp)
+                continue
             ws = leader
             for _ in range(w):
                 ws = RP.nxt(ws)
             want = (tn + 1, ws, ns + (ws in 'NS'), ew + (ws in 'EW'))
             got = (o2.trick_num, o2.leader._name_, o2.taken_tricks[Pair.NS], o2.taken_tricks[Pair.EW])
             c.inc('transitions')
-            rp = {'kind': 'graph', 'bid': bid, 'declarer': decl, 'tricks': hist + [cs]}
             if got != want or not turn_ok or o2.active_player._name_ != ws:
                 c.violate(f'C04:graph:{name.split("-")[0]}:{PX._diff(got, want)}', f'{bid} by {decl}, trick {tn} led by {leader}, shape {name} {cs}: (trick number, leader, NS, EW) = {got}, expected {want}; turns clockwise: {turn_ok}', rp)
                 continue
@@ -181,9 +193,7 @@ def l2_unit(args):
     return c
 
 
-def _clone_history(ph):
-    import copy
-    return copy.deepcopy(ph)
+import copy as _copy
 
 
 # ---- L3 ----------------------------------------------------------------------------------------------------------------
@@ -251,14 +261,14 @@ def play_units(tier: str, seed: int):
 
 # faults 'light' = on the default-line play-outs and every 4th departure play-out: a refused play that leaves something behind is
 # judged by each property in its own terms (trick bookkeeping, playable sets, replicas), not only by C05
-PROFILE = {'C04': dict(observers=False, playable=False, do_faults='light'), 'C05': dict(observers=True, playable=False, do_faults=True),
+PROFILE = {'C04': dict(observers=True, playable=False, do_faults='light'), 'C05': dict(observers=True, playable=False, do_faults=True),
            'C06': dict(observers=True, playable=True, do_faults='light'), 'C11': dict(observers=True, playable=False, do_faults='light')}
 
 
 def run_play(tag: str, tier: str, seed: int, workers: int):
     """The shared L3 exploration with the oracle profile of the property asked for (the cheap oracles of the other three
     properties that remain active are evaluated as well, but only `tag` violations are reported by the caller)."""
-    PX.set_opts(**PROFILE[tag])
+    PX.set_opts(thin=(tier == 'quick'), **PROFILE[tag])
     us = play_units(tier, seed)
     cs = pmap(l3_unit, us, workers)
     return merge_all(cs)
